@@ -20,6 +20,8 @@ pub struct KindInfo {
     pub clones: bool,
     pub adaptor: bool,
     pub nonfused: bool,
+    /// waiting ticket protocol over an arbitrary iterator (buffered iterators allocate chunk_size slots)
+    pub wrapper: bool,
     pub keymap: KeyMap,
 }
 
@@ -91,6 +93,8 @@ pub const T_OWNERS: &[&str] = &["C14"];
 pub struct Env {
     pub ki: KindInfo,
     pub len: usize,
+    /// the unit's `len` parameter as given (differs from `len` only for grid ranges)
+    pub code: usize,
     pub m: Model,
     pub src_base: usize,
     pub stride: usize,
@@ -113,7 +117,7 @@ pub fn subj<R>(f: impl FnOnce() -> R) -> R {
 
 impl Env {
     pub fn new(ki: KindInfo, len: usize) -> Self {
-        Env { ki, len, m: Model::new(len), src_base: 0, stride: 0, obs: Vec::with_capacity(256), viol: None, step: 0, handed: [0; NPOS], scratch: Vec::with_capacity(16), allow_zero: false }
+        Env { ki, len, code: len, m: Model::new(len), src_base: 0, stride: 0, obs: Vec::with_capacity(256), viol: None, step: 0, handed: [0; NPOS], scratch: Vec::with_capacity(16), allow_zero: false }
     }
     pub fn reset(&mut self) {
         self.m = Model::new(self.len);
@@ -282,7 +286,7 @@ impl Env {
         let h = subj(|| it.has_more());
         self.obs.push(match l {
             None => 0x1e00,
-            Some(x) => 0x1e01 + x as u64,
+            Some(x) => 0x1e01u64.wrapping_add(x as u64),
         });
         self.check_len("try_get_len", l);
         let hl = match h {
@@ -408,7 +412,11 @@ where
                     }
                 }
                 SOp::BufNew(n) => {
-                    let n = resolve(n, env.len);
+                    let mut n = resolve(n, env.len);
+                    if env.ki.wrapper && n > 4096 {
+                        // buffered iterators over arbitrary iterators allocate chunk_size slots by documentation
+                        n = 4096;
+                    }
                     if let Some(b) = buf.take() {
                         subj(|| drop(b));
                     }
@@ -545,7 +553,7 @@ where
                     let l = subj(|| itr.try_get_len());
                     env.obs.push(match l {
                         None => 0x1f00,
-                        Some(x) => 0x1f01 + x as u64,
+                        Some(x) => 0x1f01u64.wrapping_add(x as u64),
                     });
                     env.check_len("try_get_len", l);
                 }
@@ -558,7 +566,7 @@ where
                     };
                     env.obs.push(match l {
                         None => 0x2f00,
-                        Some(x) => 0x2f01 + x as u64,
+                        Some(x) => 0x2f01u64.wrapping_add(x as u64),
                     });
                     if h == HasMore::Yes(0) {
                         env.fail(T_LEN, "yes-zero", "has_more answered Yes(0)".into());
@@ -584,6 +592,15 @@ where
         Term::Seq(k) => {
             let mut seq = subj(|| it.into_seq_iter());
             let exp_b = env.m.cursor.min(env.m.len);
+            let (lo, hi) = seq.size_hint();
+            env.obs.push(lo as u64);
+            if env.ki.known && !env.ki.nonfused {
+                let rem = env.len - exp_b;
+                let ok = if env.m.skipped { lo <= rem && hi.map_or(false, |h| h <= rem) } else { lo == rem && hi == Some(rem) };
+                if !ok {
+                    env.fail(T_REST, "remainder-size", format!("into_seq_iter reports size_hint ({lo}, {hi:?}) but {rem} elements are undelivered{}", if env.m.skipped { " (at most, after skip_to_end)" } else { "" }));
+                }
+            }
             let mut j = 0usize;
             let mut ids: [usize; NPOS] = [0; NPOS];
             while j < k && j < NPOS {
@@ -614,7 +631,7 @@ where
                 let got = &ids[..j];
                 if !env.m.skipped {
                     // exactly the undelivered suffix, in order (a prefix of it if only k were taken)
-                    let want_n = if k == ALL { env.len - exp_b } else { k.min(env.len - exp_b) };
+                    let want_n = if k == ALL { (env.len - exp_b).min(NPOS) } else { k.min(env.len - exp_b) };
                     let ok = j == want_n && (0..j).all(|t| got[t] == env.key_at(exp_b + t));
                     if !ok {
                         let want: Vec<usize> = (exp_b..env.len).map(|p| env.key_at(p)).collect();
@@ -636,7 +653,8 @@ where
 pub fn end_checks(env: &mut Env, source_still_alive: bool) {
     LEDGER.with(|l| {
         env.obs.push(MK_LEDGER | l.garbage.get() as u64);
-        for p in 0..env.len.min(NPOS) {
+        let llen = env.len.min(NPOS);
+        for p in 0..llen {
             env.obs.push(l.dropped[p].get() as u64 | (l.clone_made[p].get() as u64) << 8 | (l.clone_dropped[p].get() as u64) << 16);
         }
         if !env.ok() {
@@ -647,13 +665,13 @@ pub fn end_checks(env: &mut Env, source_still_alive: bool) {
             return;
         }
         if env.ki.consuming {
-            let bad: Vec<(usize, u8)> = (0..env.len).filter(|&p| l.dropped[p].get() != 1).map(|p| (p, l.dropped[p].get())).collect();
+            let bad: Vec<(usize, u8)> = (0..llen).filter(|&p| l.dropped[p].get() != 1).map(|p| (p, l.dropped[p].get())).collect();
             if !bad.is_empty() {
                 let class = if bad.iter().all(|b| b.1 == 0) { "never-dropped" } else { "dropped-twice" };
                 env.fail(T_LEDGER, class, format!("(position, times destroyed) after everything was dropped: {bad:?}"));
             }
         } else if source_still_alive {
-            let bad: Vec<usize> = (0..env.len).filter(|&p| l.dropped[p].get() != 0).collect();
+            let bad: Vec<usize> = (0..llen).filter(|&p| l.dropped[p].get() != 0).collect();
             if !bad.is_empty() {
                 env.fail(T_SRC, "source-modified", format!("a non-consuming iterator destroyed source elements {bad:?}"));
             }
